@@ -23,7 +23,8 @@ const hdrName = "X-T"
 var fieldSize = []int{2, 3, 6, 3}
 
 type matcher struct {
-	kind   byte // 'a' atom, 'e' error matcher, 'l' legacy RequestMatcher (answers ekind == 1), 'n' not
+	kind   byte // 'a' atom, 'e' error matcher, 'l' legacy RequestMatcher (answers ekind == 1), 'n' not,
+	// 'c' / 'k': real expression matcher on {http.error.status_code}: in vals[0]..vals[1] / one of vals
 	field  int  // atom: 0 method 1 host 2 path 3 header
 	vals   []int
 	ekind  int // error matcher: 0 (false,err) 1 (true,err) 2 legacy Match+var
@@ -118,6 +119,14 @@ func (p *parser) matcher() *matcher {
 		return m
 	case "e":
 		return &matcher{kind: 'e', ekind: p.nat(), status: p.nat()}
+	case "c":
+		return &matcher{kind: 'c', vals: []int{p.nat(), p.nat()}}
+	case "k":
+		m := &matcher{kind: 'k'}
+		for n := p.count(); n > 0 && !p.bad; n-- {
+			m.vals = append(m.vals, p.nat())
+		}
+		return m
 	case "l":
 		m := &matcher{kind: 'l', ekind: p.nat()}
 		if m.ekind > 1 {
@@ -241,6 +250,8 @@ func kindKey(m *matcher) int {
 		return 4 + m.ekind
 	case 'l':
 		return 8 + m.ekind
+	case 'c', 'k':
+		return 10
 	}
 	return 7
 }
@@ -262,6 +273,15 @@ func setsValid(sets [][]*matcher) bool {
 			case 'e':
 				if m.ekind >= 3 || !errStatusOK(m.status) {
 					return false
+				}
+			case 'c', 'k':
+				if len(m.vals) == 0 {
+					return false
+				}
+				for _, v := range m.vals {
+					if v < 100 || v > 599 {
+						return false
+					}
 				}
 			case 'n':
 				if !setsValid(m.sets) {
@@ -346,6 +366,16 @@ func (e *enc) sets(sets [][]*matcher) {
 			case 'l':
 				e.w("l")
 				e.n(m.ekind)
+			case 'c':
+				e.w("c")
+				e.n(m.vals[0])
+				e.n(m.vals[1])
+			case 'k':
+				e.w("k")
+				e.n(len(m.vals))
+				for _, v := range m.vals {
+					e.n(v)
+				}
 			case 'n':
 				e.w("n")
 				e.sets(m.sets)
